@@ -348,6 +348,8 @@ def run(ctx):
                         nonnull = check_result(ctx, text, res[0], res[1], mon, case)
                         ctx.case((text, 'postings'), nonnull > 0)
     special_forms(ctx, mon, conn, tabs, cases)
+    if ctx.shard % 2 == 0 or not ctx.quick:
+        failed_execution_part(ctx, mon)
     ledger_columns(ctx, mon)
     if ctx.shard % 4 == 1 or not ctx.quick:
         subquery_histories(ctx, mon)
@@ -436,6 +438,25 @@ def special_forms(ctx, mon, conn, tabs, cases):
                 check_result(ctx, outer, res2[0], res2[1], mon, case)
                 if res2[0][0].datatype is not res[0][0].datatype:
                     ctx.violation('c04.subquery_changes_datatype', f'{outer}: announced {res2[0][0].datatype} but the inner statement announces {res[0][0].datatype}', case)
+
+
+def failed_execution_part(ctx, mon):
+    """A cursor re-used after a refused or failed execution: the cells it still delivers conform to the datatypes it announces."""
+    from .. import failpaths
+    rng = ctx.rng('failpaths')
+    for label, first, names, fetched, text, kind, desc, cur, raised, nrows in failpaths.scenarios(rng, ctx.pick(20, 200)):
+        case = {'statement_sequence': label, 'hashable_values': True}
+        ctx.count(f'obs.failed_executions.{kind}')
+        if raised is None:
+            continue
+        rest = cur.fetchall()
+        ctx.case(('failpath', label), bool(rest))
+        if desc is None:
+            if rest:
+                ctx.violation('c04.rows_without_description', f'after {text!r} failed the cursor delivers rows but has no description', case)
+            continue
+        mon.reset()
+        check_result(ctx, label, desc, rest, mon, case)
 
 
 def struct_chains(dtype, depth):
@@ -609,6 +630,8 @@ def finalize(merged):
     merged['extra']['overloads_not_constructible'] = sorted(nc)
     if len(ex) + len(nc) < c.get('registry.instantiations', 1):
         reasons.append(f"registry sweep incomplete: {len(ex) + len(nc)}/{c.get('registry.instantiations')}")
+    if c.get('obs.failed_executions.failing', 0) == 0:
+        reasons.append('no failed execution on a re-used cursor observed')
     if c.get('obs.special_form_cells', 0) == 0:
         reasons.append('special forms part observed no cell')
     if c.get('obs.node_evaluations', 0) == 0:
